@@ -68,6 +68,13 @@ def toOption {α} : Res α → Option α
   | ok a => some a
   | _ => none
 
+/-- Forget which exception class was thrown (the properties only ask for
+"an exception derived from std::exception"). -/
+def coarse {α} : Res α → Res α
+  | ok a => ok a
+  | throw _ => throw .invalid_argument
+  | ub u => ub u
+
 def render {α} (f : α → String) : Res α → String
   | ok a => let s := f a; if s.isEmpty then "ok" else "ok " ++ s
   | throw e => "throw " ++ e.toString
